@@ -135,6 +135,20 @@ def h_move(pa: bool, pb: bool, py: bool, f0: bool, f1: bool, f2: bool, f3: bool)
                     idx.storage_map.add_cache(ObjectStorage(pre, caches[0]))
                     idx.storage_map.add_remote(ObjectStorage(pre, R0))
                 return
+            if cube("nested_first", False) and MAPPING in (1, 2):
+                # registration order is not part of the contract: the nested prefix is registered before its parent
+                old = idx.storage_map
+                sm = type(old)()
+                sm.add_remote(ObjectStorage(("x",), R1))
+                if MAPPING == 2:
+                    sm.add_cache(ObjectStorage(("x",), caches[1]))
+                for pre in list(old):  # what build() registered (the workspace as data storage of the root prefix)
+                    if old[pre].data is not None:
+                        sm.add_data(old[pre].data)
+                sm.add_cache(ObjectStorage((), caches[0]))
+                sm.add_remote(ObjectStorage((), R0))
+                idx.storage_map = sm
+                return
             idx.storage_map.add_cache(ObjectStorage((), caches[0]))
             if MAPPING == 4:
                 # the only remote is registered for a prefix *inside* the unloaded directory object (nothing at a shorter prefix loads it first)
